@@ -847,4 +847,29 @@ MUTANTS = [
       "            hidden.sort_by_key(|v| match v.as_ref() {\n                LTermInner::Var(id, _) => Some(*id),\n                _ => None,\n            });\n",
       "",
       {"C09": "hash-order-into-committed-choice"}),
+    # ---- behaviour-preserving edits for the kind tables / shared rules -------------------------
+    M("silent-is-list-arm-order", ["C21", "C01"], "src/lterm.rs",
+      "            LTermInner::Empty => true,\n            LTermInner::Cons(_, _) => true,\n            _ => false,",
+      "            LTermInner::Cons(_, _) | LTermInner::Empty => true,\n            _ => false,",
+      silent=True),
+    M("silent-goal-solve-arm-order", ["C06", "C14"], "src/goal.rs",
+      "            Goal::Succeed => Stream::unit(Box::new(state)),\n            Goal::Fail => Stream::empty(),\n            Goal::Breakpoint(_) => Stream::unit(Box::new(state)),",
+      "            Goal::Fail => Stream::empty(),\n            Goal::Succeed | Goal::Breakpoint(_) => Stream::unit(Box::new(state)),",
+      silent=True),
+    M("silent-conde-builder-rename", ["C13", "C14", "C05", "C06"], "src/operator/conde.rs",
+      "        for conjunction_goals in goals {\n            conjunctions.push(GoalCast::cast_into(InferredConj::from_array(\n                conjunction_goals,\n            )));\n        }",
+      "        for clause in goals.iter() {\n            let conjunction = InferredConj::from_array(clause);\n            conjunctions.push(GoalCast::cast_into(conjunction));\n        }",
+      silent=True),
+    M("silent-is-improper-as-match", ["C21"], "src/lterm.rs",
+      "                if tail.is_empty() {\n                    false\n                } else {\n                    if tail.is_list() {\n                        tail.is_improper()\n                    } else {\n                        true\n                    }\n                }",
+      "                match tail.as_ref() {\n                    LTermInner::Empty => false,\n                    LTermInner::Cons(_, _) => tail.is_improper(),\n                    _ => true,\n                }",
+      silent=True),
+    M("silent-verify-all-bound-rename", ["C16", "C23"], "src/state/mod.rs",
+      "                let uwalk = self.smap_ref().walk(u);\n                if uwalk.is_var() && !self.dstore_ref().contains_key(uwalk) {",
+      "                let representative = self.smap_ref().walk(u);\n                if representative.is_var() && !self.dstore_ref().contains_key(representative) {",
+      silent=True),
+    M("silent-plusfd-ctor-field-order", ["C16"], "src/relation/clpfd/plusfd.rs",
+      "        InferredGoal::new(G::dynamic(Rc::new(PlusFd { u, v, w })))",
+      "        InferredGoal::new(G::dynamic(Rc::new(PlusFd { w, v, u })))",
+      silent=True),
 ]
